@@ -271,7 +271,7 @@ End Inline.
 
 (* what the outer build needs to know about a function body built by its own Builder (fresh Scope) *)
 Record fdesc := { fd_node : nat; fd_domain : string; fd_name : string; fd_inputs : list string; fd_outputs : list string;
-                  fd_attrs : list string; fd_body : list mnode; fd_req : req }.
+                  fd_attrs : list string; fd_body : list mnode; fd_req : req; fd_bodyid : nat }.
 
 Section Compile.
 Variable p : prog.
@@ -308,7 +308,7 @@ Fixpoint compile (fuel : nat) (s : scope) (g : nat) (prefix : string) (is_main :
                                         fd_inputs := match kind nd with KFunc _ a _ _ => a | _ => [] end;
                                         fd_outputs := match kind nd with KFunc _ _ b _ => b | _ => [] end;
                                         fd_attrs := match kind nd with KFunc _ _ _ c => c | _ => [] end;
-                                        fd_body := bnodes; fd_req := brq |} :: bfs)%list)
+                                        fd_body := bnodes; fd_req := brq; fd_bodyid := body |} :: bfs)%list)
                      | _ => ret (union req_eqb rq (node_req p u), fs)
                      end ;;
           let '(rq, fs) := meta in
@@ -492,7 +492,7 @@ Fixpoint build_main (ffuel : nat) (p : prog) (un : names) (main : nat) : res bui
 (* Graph.to_onnx_model on the result: one FunctionProto per (domain, name), RuntimeError on two different definitions *)
 Definition function_proto (model_imports : list (string * nat)) (f : fdesc) : mfunction :=
   {| f_domain := fd_domain f; f_name := fd_name f; f_inputs := fd_inputs f; f_outputs := fd_outputs f; f_attrs := fd_attrs f;
-     f_body := fd_body f; f_imports := max_opset_policy (fd_req f ++ model_imports)%list |}.
+     f_body := fd_body f; f_imports := max_opset_policy (fd_req f ++ model_imports)%list; f_bodyid := fd_bodyid f |}.
 Definition fkey_eqb (a b : mfunction) := String.eqb (f_domain a) (f_domain b) && String.eqb (f_name a) (f_name b).
 
 Definition to_model (b : built) : res model :=
@@ -502,7 +502,13 @@ Definition to_model (b : built) : res model :=
                match find (fkey_eqb pr) acc with
                | Some old => if String.eqb (show_function old) (show_function pr) then ret acc else raise ERuntime
                | None => ret (acc ++ [pr])%list end) (b_funs b) [] ;;
-  if struct_check (b_graph b) then ret {| mmain := b_graph b; mimports := imports; mfunctions := funs |}
+  (* the checker also walks every FunctionProto: nodes topologically sorted w.r.t. the function inputs; initializers of a
+     body graph are not part of a FunctionProto, so a body that uses one is rejected *)
+  let fun_ok (f : mfunction) :=
+    match check_nodes (S (size_graph (MGraph [] (f_body f) []))) [] (f_inputs f) (f_body f) with
+    | Some d => forallb (fun o => mem String.eqb o d) (f_outputs f)
+    | None => false end in
+  if struct_check (b_graph b) && forallb fun_ok funs then ret {| mmain := b_graph b; mimports := imports; mfunctions := funs |}
   else raise EValidation.
 
 (* ---------- the public build() ---------- *)
